@@ -269,20 +269,54 @@ def _uninstall_log_path(ctx: RuleCtx) -> str:
     raise Undecided(f'uninstall.run: log path `{short(ra_)}` is not a constant')
 
 
-def _fold_path(fn: U.FuncNode, e: ast.AST, depth: int = 0) -> str:
-    """Constant folding of a path expression built from literals, single-binding locals, os.path.join/dirname/normpath."""
+def _module_single_bindings(mod: Module) -> T.Dict[str, ast.AST]:
+    """Module-level names with exactly one binding in the whole module (`NAME = <expr>` at top level; never stored, deleted, declared
+    `global`, or used as a parameter / import alias anywhere else): the closed-world reading of a hoisted constant."""
+    counts: T.Dict[str, int] = {}
+    for n in ast.walk(mod.tree):
+        if isinstance(n, ast.Name) and isinstance(n.ctx, (ast.Store, ast.Del)):
+            counts[n.id] = counts.get(n.id, 0) + 1
+        elif isinstance(n, ast.Global):
+            for g in n.names:
+                counts[g] = counts.get(g, 0) + 2
+        elif isinstance(n, ast.alias):
+            nm = (n.asname or n.name).split('.')[0]
+            counts[nm] = counts.get(nm, 0) + 2
+        elif isinstance(n, (ast.FunctionDef, ast.AsyncFunctionDef, ast.ClassDef)) and n in mod.tree.body:
+            counts[n.name] = counts.get(n.name, 0) + 2
+    out: T.Dict[str, ast.AST] = {}
+    for st in mod.tree.body:
+        tg = st.targets[0] if isinstance(st, ast.Assign) and len(st.targets) == 1 else (st.target if isinstance(st, ast.AnnAssign) else None)
+        val = getattr(st, 'value', None)
+        if isinstance(tg, ast.Name) and val is not None and counts.get(tg.id, 0) == 1:
+            out[tg.id] = val
+    return out
+
+
+def _fold_path(fn: T.Optional[U.FuncNode], e: ast.AST, depth: int = 0, mod: T.Optional[Module] = None) -> str:
+    """Constant folding of a path expression built from literals, single-binding locals, single-binding module-level constants
+    (folded in the module scope), os.path.join/dirname/normpath."""
     if depth > 8:
         raise Undecided('path folding too deep')
     if isinstance(e, ast.Constant) and isinstance(e.value, str):
         return e.value
     if isinstance(e, ast.Name):
-        al = U.single_def_aliases(fn)
-        if e.id in al:
-            return _fold_path(fn, al[e.id], depth + 1)
-        raise Undecided(f'path folding: `{e.id}` is not a single-binding local of {fn.name}')
+        if fn is not None:
+            al = U.single_def_aliases(fn)
+            if e.id in al:
+                return _fold_path(fn, al[e.id], depth + 1, mod)
+            local = {n.id for n in walk_no_nested(fn) if isinstance(n, ast.Name) and isinstance(n.ctx, (ast.Store, ast.Del))} | \
+                {a.arg for a in fn.args.posonlyargs + fn.args.args + fn.args.kwonlyargs}
+            if e.id in local or mod is None:
+                raise Undecided(f'path folding: `{e.id}` is not a single-binding local of {fn.name}')
+        if mod is not None:
+            glob = _module_single_bindings(mod)
+            if e.id in glob:
+                return _fold_path(None, glob[e.id], depth + 1, mod)
+        raise Undecided(f'path folding: `{e.id}` is neither a single-binding local nor a single-binding module constant')
     if isinstance(e, ast.Call) and not e.keywords:
         f = norm(e.func)
-        args = [_fold_path(fn, a, depth + 1) for a in e.args]
+        args = [_fold_path(fn, a, depth + 1, mod) for a in e.args]
         if f == 'os.path.join' and args:
             return posixpath.join(*args)
         if f == 'os.path.dirname' and len(args) == 1:
@@ -407,7 +441,7 @@ def r1(ctx: RuleCtx) -> None:
     logs = 0
     for r in runrefs:
         if r.name.startswith('open:') and r.call is not None and r.call.args:
-            p = posixpath.normpath(_fold_path(run, r.call.args[0]))
+            p = posixpath.normpath(_fold_path(run, r.call.args[0], mod=mod))
             want = _uninstall_log_path(ctx)
             logs += 1
             ctx.require(p == want, f'run: the only file opened for writing is the install log `{p}`', mod, 'run', r.call,
@@ -1980,7 +2014,7 @@ def r4b(ctx: RuleCtx) -> None:
     nl = [kwarg(c, 'newline') for c in (wopen[0], ropen[0])]
     ctx.require(nl[0] is None and nl[1] is None or (nl[0] is not None and nl[1] is not None and norm(nl[0]) == norm(nl[1])),
                 'log written and read with the same newline translation', um, 'do_uninstall', ropen[0], 'writer and reader use different newline= settings')
-    wpth = posixpath.normpath(_fold_path(run, wopen[0].args[0]))
+    wpth = posixpath.normpath(_fold_path(run, wopen[0].args[0], mod=mod))
     rcalls = [c for c in calls_in(um.func('run')) if isinstance(c.func, ast.Name) and c.func.id == 'do_uninstall']
     rp = _uninstall_log_path(ctx)
     ctx.require(rp == wpth, f'uninstall reads the file install writes ({wpth})', um, 'run', rcalls[0] if rcalls else um.func('run'),
